@@ -269,7 +269,16 @@ impl ToolRunner {
             return events;
         };
 
-        match hook.rewind(session_id, checkpoint_id) {
+        #[cfg(rip_verif)]
+        rip_kernel::verif::point("ckpt.exec.begin", || {
+            serde_json::json!({"stream": session_id, "op": "rewind"})
+        });
+        let rewound = hook.rewind(session_id, checkpoint_id);
+        #[cfg(rip_verif)]
+        rip_kernel::verif::point("ckpt.exec.end", || {
+            serde_json::json!({"stream": session_id, "op": "rewind", "ok": rewound.is_ok()})
+        });
+        match rewound {
             Ok(record) => events.push(self.emit(
                 session_id,
                 seq,
@@ -320,7 +329,16 @@ impl ToolRunner {
             tool_name: None,
         };
 
-        match hook.create(request) {
+        #[cfg(rip_verif)]
+        rip_kernel::verif::point("ckpt.exec.begin", || {
+            serde_json::json!({"stream": session_id, "op": "create"})
+        });
+        let created = hook.create(request);
+        #[cfg(rip_verif)]
+        rip_kernel::verif::point("ckpt.exec.end", || {
+            serde_json::json!({"stream": session_id, "op": "create", "ok": created.is_ok()})
+        });
+        match created {
             Ok(record) => events.push(self.emit(
                 session_id,
                 seq,
